@@ -131,9 +131,12 @@ func (q *ShardQueue) triggering(shard int32) {
 	q.listLock.Lock()
 	q.w = (q.w + 1) % q.size
 	q.list[q.w] = shard
+	// count the entry in the same critical section: the worker takes `trigger` entries off the ring in order,
+	// an entry that is written but not yet counted would be paid for by a later Add's count
+	n := atomic.AddInt32(&q.trigger, 1)
 	q.listLock.Unlock()
 
-	if atomic.AddInt32(&q.trigger, 1) > 1 {
+	if n > 1 {
 		return
 	}
 	q.foreach()
